@@ -80,14 +80,17 @@ def replay_gen(chk: Check, cfg, states, qseq, tier):
                 want_i, want_c = sorted(ans[qi][0]), sorted(ans[qi][1])
                 if got != want_i:
                     report(chk, bs, d, ps, p, aff, qseq[qi], "intersects", got, want_i)
-                cov, ov = tree.covers_overlaps(q)
-                cov, ov = sorted(int(x) for x in cov), sorted(int(x) for x in ov)
+                cov_raw, ov_raw = tree.covers_overlaps(q)
+                cov, ov = sorted(int(x) for x in cov_raw), sorted(int(x) for x in ov_raw)
+                if qi % 4 == 1:
+                    held.append((qi, cov_raw, cov))
+                    held.append((qi, ov_raw, ov))
                 want_o = sorted(set(want_i) - set(want_c))
                 if cov != want_c or ov != want_o:
                     report(chk, bs, d, ps, p, aff, qseq[qi], "covers_overlaps", [cov, ov], [want_c, want_o])
             for qi, raw, got in held:
                 if sorted(int(x) for x in raw) != got:
-                    report(chk, bs, d, ps, p, aff, qseq[qi], "intersects (the returned array, looked at again after later queries on the same index)",
+                    report(chk, bs, d, ps, p, aff, qseq[qi], "intersects / covers_overlaps (the returned array, looked at again after later queries on the same index)",
                            sorted(int(x) for x in raw), got)
                     break
         # GeometryArray.sindex on an array whose element bounds are the boxes (2-d only)
